@@ -625,6 +625,38 @@ func init() {
 		},
 		outside: "aliases deeper than the third nested position of a tree (kept native); trees outside the sample",
 	})
+
+	register(&property{
+		id: "C02",
+		gen: func(tier string, seed int) []symx.CaseSpec {
+			var out []symx.CaseSpec
+			for k := 0; k <= 10; k++ {
+				out = append(out, cs("VH_C02_Named", k))
+			}
+			n := q(tier, 150, 1500)
+			r := uint64(seed)*2654435761 + 2
+			for i := 0; i < n; i++ {
+				var digits []int
+				for k := 0; k < 60; k++ {
+					r = r*6364136223846793005 + 1442695040888963407
+					digits = append(digits, int((r>>33)%5040))
+				}
+				depth := 1 + i%3
+				symTxt := q(tier, 1, 2)
+				if i%4 == 0 {
+					symTxt = 0
+				}
+				out = append(out, cs("VH_C02", append([]int{depth, 2 + i%2, symTxt, 1 + i%2}, digits...)...))
+			}
+			return out
+		},
+		boundsText: map[string]string{
+			"quick":    "11 hand-built trees for the cases the statement names + 150 seeded trees of depth<=3, width<=3 over AND/OR/NOT/LIST/BASIC with text/int/bool leaves, Conditions (padding, paren, encap variants) and nested stacks; the option bits (paren, fold, no-padding, lead-once) of the first 1-2 nodes are solver variables, the others drawn with the shape; symbol none/1/2 bytes, delimiter none/1/2 bytes, encapsulation none/single/pair/single+pair; one text leaf of 0..2 unconstrained ASCII bytes (blank, tab, NUL included), the other leaves from a fixed list incl. multi-byte UTF-8, embedded blanks/tabs and the empty string",
+			"thorough": "1500 trees, two symbolic text leaves",
+		},
+		outside: "symbolic bytes >= 0x80 (non-ASCII text is covered by concrete leaves only); leaves longer than 2 symbolic bytes; lead-once on LIST stacks (statement silent); nil / unknown-typed elements (render as UNKNOWN, outside the statement's domain); presentation policies (C14); aliases (C12)",
+		assumptions: []string{"where the statement does not say where blanks go, the reference grammar is the one pinned by the repository's tests (leaves padded unless no-padding; nested renderings inserted as they are; word operators always blank-separated; symbols/delimiters blank-separated only under padding; LIST without delimiter: one blank under padding, nothing under no-padding)"},
+	})
 }
 
 var _ = fmt.Sprint
